@@ -122,6 +122,7 @@ class SimLoop(asyncio.SelectorEventLoop):
         self.net = None
         self.handles = []      # (owner, handle) of timers created
         self.tasks_by_owner = []
+        self.dead_owners = set()
         self.rng = random.Random(seed)
         super().__init__(_FakeSelector(self))
         self._clock_resolution = 1e-9
@@ -150,19 +151,45 @@ class SimLoop(asyncio.SelectorEventLoop):
 
     def call_at(self, when, callback, *args, context=None):
         h = super().call_at(when, callback, *args, context=context)
+        if self._dead(context):
+            h.cancel()
         o = OWNER.get()
         self.handles.append((o if o is not None else self.owner, h))
         if len(self.handles) > 4096:
             self.handles = [(o, x) for o, x in self.handles if not x.cancelled() and x.when() >= self._vt]
         return h
 
-    def kill(self, owner):
+    def _dead(self, context):
+        if not self.dead_owners:
+            return False
+        o = context.get(OWNER) if context is not None else OWNER.get()
+        return o in self.dead_owners
+
+    def call_soon(self, callback, *args, context=None):
+        h = super().call_soon(callback, *args, context=context)
+        if self._dead(context):
+            h.cancel()
+        return h
+
+    def kill(self, owner, freeze=False):
         """process death of a simulated client: its connections go dead first (nothing it does
-        while being torn down reaches the network), then all its tasks and timers are cancelled"""
+        while being torn down reaches the network), then all its tasks and timers are cancelled.
+        freeze=True: nothing of the client ever runs again -- no cancellation handler, no finally
+        block (a SIGKILL); its tasks stay pending for ever."""
         if self.net is not None:
             for tr in list(self.net.live):
                 if tr.owner == owner:
                     tr.dead = True
+        if freeze:
+            self.dead_owners.add(owner)
+            for h in list(self._ready) + list(self._scheduled):
+                c = getattr(h, "_context", None)
+                if c is not None and c.get(OWNER) == owner:
+                    h.cancel()
+            for o, h in self.handles:
+                if o == owner and not h.cancelled():
+                    h.cancel()
+            return
         for o, h in self.handles:
             if o == owner and not h.cancelled():
                 h.cancel()
